@@ -1,5 +1,5 @@
 (** Property C06: in-place editing is all-or-nothing across files. *)
-From Vicut Require Import Base.Prelude Model.Format Model.Drivers Proofs.DriverProofs.
+From Vicut Require Import Base.Prelude Model.Format Model.Drivers Proofs.DriverProofs Proofs.BackupProofs.
 
 (** (1) Default / pooled driver: if any named file cannot be read, or the
     processing of any file aborts (exit or panic), the run fails and the file
@@ -30,6 +30,29 @@ Theorem C06_format_error_atomic :
     exists b, files_emit o results s = (s, Failed b).
 Proof. intros; now apply files_emit_atomic. Qed.
 
+(** (4) The write phase of the parallel drivers with [--backup], as the code has it since the repair (every backup first,
+    then every file): when a backup cannot be made - the file has vanished since it was read - the run fails, nothing is
+    printed, and every named file, indeed everything that is not a backup sibling, is as it was.  Backup names must not
+    be names of files of the run. *)
+Theorem C06_backup_fault_atomic :
+  forall (o : dopts) (l : list (text * text)) (s : dstate),
+    do_backup o = true ->
+    snd (backup_all (map fst l) (d_fs s)) = false ->
+    (forall p q, In p (map fst l) -> In q (map fst l) -> backup_path (T "bak") q <> p) ->
+    exists s', emit_two_phase o l s = (s', Failed false)
+      /\ d_out s' = d_out s
+      /\ (forall p, In p (map fst l) -> fs_get (d_fs s') p = fs_get (d_fs s) p)
+      /\ (forall q, ~ In q (map (backup_path (T "bak")) (map fst l)) -> fs_get (d_fs s') q = fs_get (d_fs s) q).
+Proof. exact two_phase_fault_atomic. Qed.
+
+(** three files, the second one gone: the first has its backup, no file is rewritten *)
+Example C06_backup_fault_example :
+  let o := mkDO (FStandard (T " ")) false true true [T "a"; T "b"; T "c"] in
+  let s := mkD [(T "a", FText (T "1")); (T "c", FText (T "3"))] [] in
+  emit_two_phase o [(T "a", T "x"); (T "b", T "y"); (T "c", T "z")] s
+  = (mkD [(T "a", FText (T "1")); (T "c", FText (T "3")); (T "a..bak", FText (T "1"))] [], Failed false).
+Proof. vm_compute. reflexivity. Qed.
+
 (** Known finding (class serial-driver): [--serial] reads, executes and writes
     file by file; a fault in a later file leaves the earlier ones rewritten. *)
 Theorem C06_serial_refuted :
@@ -49,3 +72,5 @@ Print Assumptions C06_parallel_atomic.
 Print Assumptions C06_linewise_parallel_atomic.
 Print Assumptions C06_format_error_atomic.
 Print Assumptions C06_serial_refuted.
+
+Print Assumptions C06_backup_fault_atomic.
